@@ -75,7 +75,9 @@ def parseOp (line : String) : Option Op :=
   | ["snap"] => some .snap
   | ["freq", k] => do some (.freq (← k.toNat?))
   | ["policy"] => some .snap
-  | ["drop"] => some .snap
+  -- `drop` ends a case; its observation carries the live-object counts as an empty snapshot.
+  -- On a trace it is a clock step of 0 (so that no window rule about `snap` sees it).
+  | ["drop"] => some (.adv 0)
   | w :: _ => if w.startsWith "skt." || w.startsWith "dq." then some .snap else none
   | _ => none
 
@@ -298,7 +300,11 @@ def parseObs (s : String) : Option Obs :=
   | "snap" :: fields => (fields.foldlM parseSnapField emptySnap).map .snap
   | "cap" :: _ => some .ok
   | "policy" :: _ => some .ok
-  | "dropped" :: _ => some .ok
+  | ["dropped", k, v] =>
+    -- `drop -> dropped k=<live keys> v=<live values>`: an empty cache and what is still alive
+    match k.splitOn "=", v.splitOn "=" with
+    | ["k", a], ["v", b] => do some (.snap { emptySnap with liveK := ← a.toNat?, liveV := ← b.toNat? })
+    | _, _ => none
   | "skt" :: _ => some .ok
   | "len" :: _ => some .ok
   | "dump" :: _ => some .ok
